@@ -2,6 +2,7 @@
 // Oracle: ref/argon2.hpp (RFC 9106 incl. lanes), ref/scrypt.hpp (RFC 7914 + $7$ codec), strict PHC string parser.
 #define VH_NO_SODIUM_INIT 1
 #include "vh_main.hpp"
+#include "giant.hpp"
 #include "vh_rc.hpp"
 #include "argon2.hpp"
 #include "scrypt.hpp"
@@ -136,6 +137,78 @@ void explore_scrypt(Ctx &ctx) {
             if (((uint64_t) 1 << nl) * rr * p > 65536) continue;
             for (unsigned long m : masks) { ScCase c{ pw, salt, 0, 0, 0, ol, false, ops, mem, m }; exec_case(ctx, c, run_scrypt, mix64(mix64(ops, mem), m), true); }
         }
+}
+
+// ------------------------------------------------------------------ scrypt with 4 GiB of output, or 4 GiB between its two PBKDF2 passes
+// Output lengths up to (2^32-1)*32 bytes and r*p < 2^30 are inside the documented limits.  (thorough tier, non-sanitizer build, first round)
+//  kind 0: N=2, r=1, p=1, a giant output: sampled 32-byte blocks T_i = HMAC-SHA-256(P, B || INT(i)) from the reference model
+//          (B: 128 bytes through the reference PBKDF2 and ROMix), the partial last block, nothing written beyond the requested length;
+//  kind 1: N=2, r=1, giant p (B is p*128 bytes = 4 GiB): the whole derivation recomputed by composition - the library's streaming
+//          HMAC-SHA-256 (its correctness is C01/C04's claim) and the reference BlockMix; the composition itself is validated against
+//          the full reference model at p = 3 in the same run.
+struct GScCase { int kind; size_t outlen; uint32_t p; unsigned long mask;
+    KV kv() const { KV k; k.s("kind", "giant_scrypt").u("gkind", kind).u("outlen", outlen).u("p", p).u("mask", mask); return k; } };
+uint64_t g_giant_skipped = 0;
+void composed_scrypt_n2r1(const Bytes &pw, const Bytes &salt, uint32_t p, uint8_t *B, uint8_t *out, size_t outlen) {
+    crypto_auth_hmacsha256_state ps, h; uint8_t ib[4], T[32];
+    crypto_auth_hmacsha256_init(&ps, pw.data(), pw.size()); crypto_auth_hmacsha256_update(&ps, salt.data(), salt.size());
+    size_t blen = (size_t) p * 128;
+    for (size_t i = 0; i * 32 < blen; i++) { h = ps; ref::st32be(ib, (uint32_t) (i + 1)); crypto_auth_hmacsha256_update(&h, ib, 4); crypto_auth_hmacsha256_final(&h, T); memcpy(B + i * 32, T, std::min<size_t>(32, blen - i * 32)); }
+    for (size_t j = 0; j < p; j++) {
+        uint32_t X[32], Y[32], V[2][32]; uint8_t *b = B + 128 * j;
+        for (int k = 0; k < 32; k++) X[k] = (uint32_t) b[4 * k] | ((uint32_t) b[4 * k + 1] << 8) | ((uint32_t) b[4 * k + 2] << 16) | ((uint32_t) b[4 * k + 3] << 24);
+        for (int i = 0; i < 2; i++) { memcpy(V[i], X, sizeof X); ref::scrypt_blockmix_words(X, Y, 1); memcpy(X, Y, sizeof X); }
+        for (int i = 0; i < 2; i++) { uint32_t jj = X[16] & 1; for (int k = 0; k < 32; k++) X[k] ^= V[jj][k]; ref::scrypt_blockmix_words(X, Y, 1); memcpy(X, Y, sizeof X); }
+        for (int k = 0; k < 32; k++) { b[4 * k] = (uint8_t) X[k]; b[4 * k + 1] = (uint8_t) (X[k] >> 8); b[4 * k + 2] = (uint8_t) (X[k] >> 16); b[4 * k + 3] = (uint8_t) (X[k] >> 24); }
+    }
+    crypto_auth_hmacsha256_init(&ps, pw.data(), pw.size()); crypto_auth_hmacsha256_update(&ps, B, blen);
+    for (size_t i = 0; i * 32 < outlen; i++) { h = ps; ref::st32be(ib, (uint32_t) (i + 1)); crypto_auth_hmacsha256_update(&h, ib, 4); crypto_auth_hmacsha256_final(&h, T); memcpy(out + i * 32, T, std::min<size_t>(32, outlen - i * 32)); }
+}
+bool run_giant_scrypt(const GScCase &c, std::string &msg) {
+    init_once(); set_mask(c.mask);
+    Bytes pw = { 'p', 'l', 'e', 'a', 's', 'e', 'l', 'e', 't', 'm', 'e', 'i', 'n' }, salt = { 'S', 'o', 'd', 'i', 'u', 'm', 'C', 'h', 'l', 'o', 'r', 'i', 'd', 'e', 0, 1 };
+    if (c.kind == 0) {
+        if (!giant::have_memory(c.outlen)) { g_giant_skipped++; return true; }
+        giant::Map out(c.outlen + 64); if (!out.ok()) { g_giant_skipped++; return true; }
+        memset(out.p + c.outlen, 0x5c, 64);
+        int rc = crypto_pwhash_scryptsalsa208sha256_ll(pw.data(), pw.size(), salt.data(), salt.size(), 2, 1, 1, out.p, c.outlen);
+        if (rc != 0) FAIL("scrypt_ll (N=2 r=1 p=1) returned %d for an output of %zu bytes (limit: (2^32-1)*32)", rc, c.outlen);
+        Bytes B = ref::scrypt_romix(ref::pbkdf2_sha256(pw, salt, 1, 128), 2, 1);
+        size_t nblk = (c.outlen + 31) / 32;
+        for (size_t i : { (size_t) 1, (size_t) 2, (size_t) 3, (size_t) 1 << 16, ((size_t) 1 << 26) + 1, ((size_t) 1 << 27) - 1, (size_t) 1 << 27, ((size_t) 1 << 27) + 1, nblk - 1, nblk }) {
+            if (i < 1 || i > nblk) continue;
+            Bytes in = B; uint8_t ib[4]; ref::st32be(ib, (uint32_t) i); in.insert(in.end(), ib, ib + 4);
+            Bytes T = ref::hmac(ref::H_SHA256, pw, in);
+            size_t off = (i - 1) * 32, n = std::min<size_t>(32, c.outlen - off);
+            if (memcmp(out.p + off, T.data(), n) != 0) FAIL("scrypt_ll (N=2 r=1 p=1, %zu bytes of output): block %zu (offset %zu, %zu bytes) differs from RFC 7914 / PBKDF2-HMAC-SHA-256", c.outlen, i, off, n);
+        }
+        for (int k = 0; k < 64; k++) if (out.p[c.outlen + k] != 0x5c) FAIL("scrypt_ll wrote beyond the requested %zu bytes of output (offset +%d)", c.outlen, k);
+        return true;
+    }
+    size_t blen = (size_t) c.p * 128;
+    if (blen >= ((size_t) 1 << 30) && !giant::have_memory(2 * blen)) { g_giant_skipped++; return true; }
+    giant::Map B(blen); if (!B.ok()) { g_giant_skipped++; return true; }
+    Bytes want(c.outlen), got(c.outlen, 0xcd);
+    composed_scrypt_n2r1(pw, salt, c.p, B.p, want.data(), c.outlen);
+    if (c.p <= 64) { Bytes full = ref::scrypt(pw, salt, 2, 1, c.p, c.outlen); if (full != want) FAIL("harness self-check: the composed scrypt model differs from the reference model at p=%u", c.p); }
+    int rc = crypto_pwhash_scryptsalsa208sha256_ll(pw.data(), pw.size(), salt.data(), salt.size(), 2, 1, c.p, got.data(), c.outlen);
+    if (rc != 0) FAIL("scrypt_ll (N=2 r=1 p=%u) returned %d (r*p < 2^30 is within the limits)", c.p, rc);
+    if (got != want) FAIL("scrypt_ll (N=2 r=1 p=%u: %zu bytes between the two PBKDF2 passes) differs from RFC 7914", c.p, blen);
+    return true;
+}
+void explore_giant_scrypt(Ctx &ctx) {
+    init_once();
+    unsigned long all = 0, none = 0; for (auto &m : mask_set(false)) { if (m.name == "all") all = m.mask; if (m.name == "none") none = m.mask; }
+    uint64_t idx = 0;
+    // the composition model against the full reference (cheap, every tier and build)
+    for (uint32_t p : { 1u, 3u, 33u }) for (unsigned long m : { all, none }) { if (!ctx.mine(idx++)) continue; GScCase c{ 1, 40 + p, p, m }; exec_case(ctx, c, run_giant_scrypt, mix64(p, m), false); }
+    if (!ctx.thorough() || !giant::fast_build() || !giant::first_round()) { ctx.notes["giant_scrypt"] = "4 GiB cases: thorough tier, non-sanitizer build, first round only"; return; }
+    std::vector<GScCase> cs = {
+        { 0, ((size_t) 1 << 32) - 31, 1, all }, { 0, ((size_t) 1 << 32) + 40, 1, none }, { 0, ((size_t) 1 << 32), 1, all },
+        { 1, 64, (uint32_t) 1 << 25, all }, { 1, 70, ((uint32_t) 1 << 25) + 1, none },
+    };
+    for (auto &c : cs) { uint64_t i = idx++; if (ctx.worker != (int) (i % (uint64_t) std::min(ctx.nworkers, 3))) continue; exec_case(ctx, c, run_giant_scrypt, mix64(mix64(c.kind, c.outlen), mix64(c.p, c.mask)), true); }
+    ctx.notes["giant_scrypt_skipped_no_memory"] = std::to_string(g_giant_skipped);
 }
 
 // ------------------------------------------------------------------ limits
@@ -426,6 +499,7 @@ void explore_mut_sweep(Ctx &ctx) {
 bool replay(const KV &k, std::string &msg) {
     std::string kind = k.gs("kind");
     if (kind == "raw") { RawCase c{ (int) k.gu("alg"), k.gb("pw"), k.gb("salt"), (size_t) k.gu("outlen"), k.gu("ops"), (size_t) k.gu("mem"), (unsigned long) k.gu("mask"), (int) k.gu("api") }; return run_raw(c, msg); }
+    if (kind == "giant_scrypt") { GScCase c{ (int) k.gu("gkind"), (size_t) k.gu("outlen"), (uint32_t) k.gu("p"), (unsigned long) k.gu("mask") }; return run_giant_scrypt(c, msg); }
     if (kind == "scrypt") { ScCase c{ k.gb("pw"), k.gb("salt"), k.gu("N"), (uint32_t) k.gu("r"), (uint32_t) k.gu("p"), (size_t) k.gu("outlen"), k.gu("ll") != 0, k.gu("ops"), (size_t) k.gu("mem"), (unsigned long) k.gu("mask") }; return run_scrypt(c, msg); }
     if (kind == "limit") { LimCase c{ (int) k.gu("which"), k.gu("ops"), k.gu("mem"), k.gu("outlen"), (int) k.gu("alg") }; return run_limit(c, msg); }
     if (kind == "str") { StrCase c{ (int) k.gu("alg"), k.gb("pw"), k.gb("salt"), k.gu("ops"), (size_t) k.gu("mem"), (unsigned long) k.gu("mask") }; return run_str(c, msg); }
@@ -435,5 +509,5 @@ bool replay(const KV &k, std::string &msg) {
 }  // namespace
 
 std::vector<Sub> vh_subs() {
-    return { { "raw_argon2", explore_raw, replay }, { "raw_scrypt", explore_scrypt, replay }, { "limits", explore_limits, replay }, { "strings", explore_str, replay }, { "mutation_sweep", explore_mut_sweep, replay }, { "mutations", explore_mut, replay } };
+    return { { "raw_argon2", explore_raw, replay }, { "raw_scrypt", explore_scrypt, replay }, { "giant_scrypt", explore_giant_scrypt, replay }, { "limits", explore_limits, replay }, { "strings", explore_str, replay }, { "mutation_sweep", explore_mut_sweep, replay }, { "mutations", explore_mut, replay } };
 }
